@@ -27,7 +27,7 @@ CONFIG = {
     "C02": dict(gen=["Units"], drivers=["IsoState"]),
     "C03": dict(gen=["Units"], drivers=["Access"]),
     "C04": dict(gen=[], drivers=[]),
-    "C05": dict(gen=[], drivers=["Json"]),
+    "C05": dict(gen=[], drivers=["Json", "Identity"]),
     "C06": dict(gen=[], drivers=["Json"]),
     "C07": dict(gen=["Formats"], drivers=["TextCodec"]),
     "C08": dict(gen=["Schema"], drivers=["Store", "Schema"]),
